@@ -310,6 +310,10 @@ c.ensures("result/other-pending-kept",
           f"implies({RI}, forall(Int, lambda k: implies(k != {WID}, (k in self.pending_work_items) == old(k in self.pending_work_items) and "
           "self.pending_work_items[k] is old(self.pending_work_items[k]))))", prop=["C03", "C04"])
 c.ensures("result/flags-untouched", "self.executor_flags.broken is old(self.executor_flags.broken) and self.executor_flags.shutdown == old(self.executor_flags.shutdown)", prop=["C04", "C07"])
+c.at_call("Future.set_exception", "no-lock-held-while-the-callbacks-of-the-future-run", "no_lock_held()", prop=["C04", "C02"])
+c.at_call("Future.set_result", "no-lock-held-while-the-callbacks-of-the-future-run", "no_lock_held()", prop=["C04", "C02"])
+# waiting for the management lock is an interference point: submit() may queue work meanwhile, so the respawn decision must be taken on counts read afterwards
+c.yield_at("MPLock.__enter__", ["contents(self.pending_work_items)", "contents(self.running_work_items)"], tag="A-yield", when="log_count('acquire') == 0")
 # ---- a pid: clean exit of a worker, never 'broken', no future touched
 PID = "is_int(result_item)"
 PROC = "old(self.processes[result_item])"
@@ -466,6 +470,7 @@ c.raises("terminate/only-from-joining-internals", "BaseException",
          post=ALL_FAILED + " and len(self.pending_work_items) == 0 and self.executor_flags.broken is bpe and "
               "log_count('call:_ExecutorManagerThread.kill_workers') + log_count('raise:_ExecutorManagerThread.kill_workers') == 1")
 c.assumes("A-atomic")
+c.at_call("Future.set_exception", "no-lock-held-while-the-callbacks-of-the-future-run", "no_lock_held()", prop=["C04", "C02"])
 c.replay_for("only-from-joining-internals", "cancelled_pending_future", mode="'terminate_broken'")
 i = M.invariant(f"{EMT}.terminate_broken", 0, "for work_item in self.pending_work_items.values():")
 i.inv("visited-futures-failed", "forall(Ref('_WorkItem'), lambda w: implies(mem(__seen0, w), (G.fut_exc[w.future] is bpe and "
@@ -498,6 +503,7 @@ c.raises_only("shutdown/no-exception")
 c.modifies("self.executor_flags.shutdown", "self.executor_flags.kill_workers", "contents(self.pending_work_items)", "contents(self.processes)",
            "G.fut_n_exc", "G.fut_exc", "G.fut_exc_cls", "G.fut_refused", "G.killed", "G.joined", "G.ps_killed", "G.pid_live")
 c.assumes("A-atomic")
+c.at_call("Future.set_exception", "no-lock-held-while-the-callbacks-of-the-future-run", "no_lock_held()", prop=["C06", "C05"])
 c.replay_for("shutdown/no-exception", "cancelled_pending_future", mode="'shutdown'")
 i = M.invariant(f"{EMT}.flag_executor_shutting_down", 0, "while self.pending_work_items:")
 i.inv("removed-futures-failed", "forall(Int, lambda k: implies(old(k in self.pending_work_items) and not (k in self.pending_work_items), "
@@ -735,6 +741,7 @@ c.raises_only("onerror/only-exceptions")
 c.modifies("contents(self.pending_work_items)", "contents(self.running_work_items)", "G.fut_n_exc", "G.fut_exc", "G.fut_exc_cls")
 c.assumes("A-atomic")
 c.note("`flags` (broken/shutdown) are not reachable from the queue object: untouched by construction (frame)")
+c.at_call("Future.set_exception", "no-lock-held-while-the-callbacks-of-the-future-run", "no_lock_held()", prop=["C04", "C02"])
 c.cover("task-too-large", f"{CI} and exc_is(e, 'struct.error') and old({WIDF} in self.pending_work_items)")
 c.cover("task-unpicklable", f"{CI} and not exc_is(e, 'struct.error') and old({WIDF} in self.pending_work_items)")
 
